@@ -65,6 +65,11 @@ class Trace:
         self.chans = dict(st.notes.get("chans", ()))      # channel id -> (capacity, elem type, pos)
         self.marks = st.notes.get("marks", ())
         self.parent = None
+        self.otype = {a[2]: st.otype.get(a[2]) for a in self.acc}
+        self.accpos = dict(st.notes.get("accpos", ()))
+        self.stuck_why = st.notes.get("stuck")
+        self.notes = st.notes
+        self.steps = st.steps
 
     def sends(self, ch=None):
         return [e for e in self.events if e.kind in ("send", "trysend") and e.out != "default" and (ch is None or e.ch == ch)]
@@ -73,8 +78,10 @@ class Trace:
         return [e for e in self.events if e.kind in ("recv", "tryrecv") and e.out not in ("default",) and e.src is not None
                 and (ch is None or e.ch == ch)]
 
-    def signature(self):
-        return tuple(e.shape() for e in self.events) + (self.status,)
+    def signature(self, with_pos=True):
+        if with_pos:
+            return tuple(e.shape() for e in self.events) + (self.status,)
+        return tuple(e.shape()[:3] + e.shape()[4:] for e in self.events) + (self.status,)
 
 
 SYM_TERMS = {}      # z3 ast id -> term, for symbolic path elements of logged accesses
@@ -179,8 +186,9 @@ class E3Intrinsics(Intrinsics):
                 eng.raw = False
                 eng.kernel_limit = limit
                 # the kernel reads the message bytes and writes the index buffer it was handed
-                eng.log_access(st, "r", buf.obj, buf.path[:-1])
-                eng.log_access(st, "w", indexes.obj, indexes.path[:-1])
+                kpos = eng.caller_pos(st) or pos
+                eng.log_access(st, "r", buf.obj, buf.path[:-1], kpos)
+                eng.log_access(st, "w", indexes.obj, indexes.path[:-1], kpos)
                 full = n & ~63
                 if n < 64:
                     advs = [n]
@@ -196,7 +204,7 @@ class E3Intrinsics(Intrinsics):
                     eng.raw = True
                     s.nondet.append(("kernel.adv", adv, 64))       # concrete choice: keeps the two advances from being merged
                     for p in (p_odd, p_quote, p_err, p_pred, carried) + scratch:
-                        t = eng.path_fresh(s, "k", 64)
+                        t = eng.path_fresh(s, "k", 64, pos)
                         s.nondet.append(("kernel", t, 64))
                         eng.store(s, p, t, pos, 64)
                     # *position: the last structural found is reported at the last byte processed by this call (a concrete
@@ -204,7 +212,7 @@ class E3Intrinsics(Intrinsics):
                     # caller stays possible, independently per buffer)
                     p_in = eng.deref(s, position, pos, 64)
                     eng.store(s, position, simp(bv(p_in, 64) + adv) if n < 64 or adv == n and n <= 64 else (adv - 1) & M(64), pos, 64)
-                    lo = eng.path_fresh(s, "k.len", 64)
+                    lo = eng.path_fresh(s, "k.len", 64, pos)
                     s.nondet.append(("kernel.len", lo, 64))
                     eng.store(s, index, lo, pos, 64)
                     eng.raw = False
@@ -250,7 +258,7 @@ class E3Intrinsics(Intrinsics):
             if to_end is True:
                 v = simp(hi)
             else:
-                v = eng.path_fresh(st, "s2.skip", 64)
+                v = eng.path_fresh(st, "s2.skip", 64, pos)
                 st.nondet.append(("s2.skip", v, 64))
                 st.pc.append(z3.And(v >= I, v <= hi))
             eng.store(st, PtrV(base.obj, base.path + (0,)), v, pos, 64)
@@ -278,6 +286,9 @@ class E3Engine(Engine):
         self.env_chans = {}               # channel id -> "send" | "recv" (the other end is the environment)
         self.abstracted = 0
         self.interned = {}
+        self.widen = set((opts or {}).get("e3_widen", ()))
+        self.widened = 0
+        self.havoc = None
         self._ncache = {}
         self._nkeep = []
         self.compacted = 0
@@ -392,19 +403,23 @@ class E3Engine(Engine):
             if r != "unsat":
                 self.abstraction_failed.append((t.get("name"), fname, pos, r))
                 continue
-            nv = self.path_fresh(st, "abs.%s" % fname, bits)
+            nv = self.path_fresh(st, "abs.%s" % fname, bits, pos)
             st.nondet.append(("abs." + fname, nv, bits))
             st.pc.append(z3.And(nv >= lo, nv <= hi))
             x[fi] = nv
             self.abstracted += 1
         return tuple(x)
 
-    def path_fresh(self, st, name, bits):
-        """fresh symbol whose identity is a function of (thread, ordinal along the path): sibling paths reuse the same
-        symbols for their n-th nondeterministic value, which is what lets states merge (symbols are bound per path)"""
-        n = st.notes.get("nf", 0) + 1
-        st.notes["nf"] = n
-        key = "%s!t%s!%d" % (name, st.notes.get("tid", "0"), n)
+    def path_fresh(self, st, name, bits, site=None):
+        """fresh symbol whose identity is a function of (thread, site, occurrence of that site along the path): sibling
+        paths reuse the same symbols for corresponding nondeterministic values, which is what lets states merge (symbols
+        are bound per path; a merged state continues with the maximum of both counters, so no symbol is reused on a path)"""
+        cnt = dict(st.notes.get("nfc", ()))
+        k = (name, site)
+        n = cnt.get(k, 0) + 1
+        cnt[k] = n
+        st.notes["nfc"] = cnt
+        key = "%s!t%s!%s!%d" % (name, st.notes.get("tid", "0"), site or "", n)
         t = self.interned.get((key, bits))
         if t is None:
             t = z3.BitVec(key, bits) if bits else z3.Bool(key)
@@ -415,6 +430,16 @@ class E3Engine(Engine):
         st.notes["stuck"] = (why, pos)
         st.status = "done"
         st.frames = []
+
+    def caller_pos(self, st):
+        """source position of the call instruction that created the current (top) frame"""
+        if len(st.frames) < 2:
+            return None
+        fr = st.frames[-2]
+        blk = fr.fn["blocks"][fr.blk]
+        if fr.ip - 1 < 0 or fr.ip - 1 >= len(blk["ins"]):
+            return None
+        return blk["ins"][fr.ip - 1].get("pos")
 
     def loc_id(self, p):
         return (p.obj,) + _pathkey(p.path)
@@ -430,7 +455,7 @@ class E3Engine(Engine):
     def chan_elem(self, st, oid):
         return dict(st.notes.get("chans", ())).get(oid, (None, None, None))[1]
 
-    def log_access(self, st, kind, obj, path):
+    def log_access(self, st, kind, obj, path, pos=None):
         if obj is None or obj.startswith("str:"):
             return
         seg = len(st.notes.get("ev", ()))
@@ -440,16 +465,37 @@ class E3Engine(Engine):
             acc = frozenset()
         if key not in acc:
             st.notes["acc"] = acc | {key}
+            if pos is not None and not pos.startswith("zz_verif"):
+                ap = dict(st.notes.get("accpos", ()))
+                ap[key] = pos
+                st.notes["accpos"] = ap
 
     # ---- memory hooks -----------------------------------------------------------------------------------------
+    def _havoc_loc(self, st, ptr):
+        if self.havoc is None:
+            self.havoc = set()
+            for tname, fname in self.opts.get("e3_havoc_fields", ()):
+                for tid, t in self.p.types.items():
+                    if t.get("name") == tname and t.get("k") == "struct":
+                        self.havoc.add((tid, [f["name"] for f in t["fields"]].index(fname)))
+        if not self.havoc or not ptr.path or type(ptr.path[0]) is not int:
+            return False
+        return (st.otype.get(ptr.obj), ptr.path[0]) in self.havoc
+
     def deref(self, st, ptr, pos, bits=None):
         if self.track and not self.raw and ptr.obj is not None:
-            self.log_access(st, "r", ptr.obj, ptr.path)
+            self.log_access(st, "r", ptr.obj, ptr.path, pos)
+            if self._havoc_loc(st, ptr) and bits:
+                # contents of this region are written by code outside the model (asm kernels): a read returns an
+                # arbitrary value (the access itself is still logged for the race obligations)
+                return self.path_fresh(st, "havoc", bits, pos)
         return super().deref(st, ptr, pos, bits)
 
     def store(self, st, ptr, val, pos, bits=None):
         if self.track and not self.raw and ptr.obj is not None:
-            self.log_access(st, "w", ptr.obj, ptr.path)
+            self.log_access(st, "w", ptr.obj, ptr.path, pos)
+            if self._havoc_loc(st, ptr):
+                return None
         return super().store(st, ptr, val, pos, bits)
 
     def slice_read_all(self, st, s, pos):
@@ -564,6 +610,23 @@ class E3Engine(Engine):
         fr.blk = target
         fr.ip = 0
 
+    def op_phi(self, st, fr, ins):
+        """loop-head widening (stated over-approximation): in the functions listed in e3_widen, a loop-carried integer
+        whose value has become a compound symbolic term is replaced at the loop head by an unconstrained fresh symbol.
+        The loop then sees a superset of the real values of that variable; dependencies between iterations are cut."""
+        prev = fr.prev
+        super().op_phi(st, fr, ins)
+        fn = fr.fn
+        if fn["name"] in self.widen and (prev, fr.blk) in self.back_edges(fn):
+            blk = fn["blocks"][fr.blk]
+            for p in blk["ins"]:
+                if p["op"] != "phi":
+                    break
+                v = fr.env.get(p["r"])
+                if z3.is_expr(v) and z3.is_bv(v) and not z3.is_const(v):
+                    fr.env[p["r"]] = self.path_fresh(st, "w." + p["r"], v.size(), "%s:%d" % (fn["name"].split(".")[-1], fr.blk))
+                    self.widened += 1
+
     # ---- calls -----------------------------------------------------------------------------------------------
     def do_call(self, st, fr, callee, args, dest, ins):
         a = self.alias.get(callee.name)
@@ -663,7 +726,11 @@ class E3Engine(Engine):
                 k = self.count(st, "send", ch.obj) + 1
                 x = self.val(st, fr, s["send"])
                 items.append((ci, "send", ch, k, x, None))
-        if not blocking:
+        alone = not any(e.kind == "go" for e in st.notes.get("ev", ())) and st.notes.get("tid", "0") == "0"
+        own_ready = alone and any(what == "recv" and isinstance(src, tuple) and src[0] == st.notes.get("tid", "0") for (_, what, _, _, _, src) in items)
+        if not blocking and not own_ready:
+            # (while no other goroutine exists, a buffered value this thread sent itself is certainly still there:
+            #  `default` is impossible then and is not explored)
             items.append((-1, "default", None, None, None, None))
         if not items:
             self.add_event(st, "select", pos=pos, src=None)
@@ -716,9 +783,44 @@ class E3Engine(Engine):
         raise EngineError("receive from an environment channel needs a region-specific value model")
 
     # ---- state merging with event lists ------------------------------------------------------------------------
+    def merge_group(self, group):
+        """merge siblings first: states are ordered by their path-condition (identity) sequence so that those sharing the
+        longest prefix are adjacent, and merged as a stack; the guards then stay local to the latest fork"""
+        if len(group) < 2:
+            return list(group)
+        group = sorted(group, key=lambda s: [id(c) for c in s.pc])
+        out = []
+        for s in group:
+            cur = s
+            while out:
+                m = self.try_merge(out[-1], cur)
+                if m is None:
+                    break
+                out.pop()
+                cur = m
+                self.merges += 1
+            out.append(cur)
+        if len(out) > 1:
+            out = super().merge_group(out)
+        return out
+
+    def ite_typed(self, c, a, b, tid):
+        if a is b or (z3.is_expr(a) and z3.is_expr(b) and a.get_id() == b.get_id()):
+            return a
+        return super().ite_typed(c, a, b, tid)
+
+    def ite_val(self, c, a, b, bits=None):
+        if a is b or (z3.is_expr(a) and z3.is_expr(b) and a.get_id() == b.get_id()):
+            return a
+        return super().ite_val(c, a, b, bits)
+
     def try_merge(self, a, b):
+        """E2's try_merge re-done for E3: (i) registers that are dead at the merge point are dropped first; (ii) the guard
+        of the ite's is the *difference* of the two path-condition suffixes (conjuncts both sides share are factored out),
+        which keeps guards from nesting across loop iterations; (iii) event lists must have the same shape, payloads are
+        ite-merged; access summaries are united; per-site symbol counters take the maximum."""
         ea, eb = a.notes.get("ev", ()), b.notes.get("ev", ())
-        if len(ea) != len(eb):
+        if len(ea) != len(eb) or len(a.frames) != len(b.frames):
             return None
         for x, y in zip(ea, eb):
             if x is not y and x.shape() != y.shape():
@@ -727,19 +829,58 @@ class E3Engine(Engine):
             va, vb = a.notes.get(key), b.notes.get(key)
             if va is not vb and va != vb:
                 return None
-        if a.frames and b.frames and a.frames[-1].fn is b.frames[-1].fn and a.frames[-1].blk == b.frames[-1].blk:
-            self.prune_dead(a)
-            self.prune_dead(b)
-        m = super().try_merge(a, b)
-        if m is None:
+        if len(a.nondet) != len(b.nondet) or any(x[1] is not y[1] and not (type(x[1]) is int and x[1] == y[1]) for x, y in zip(a.nondet, b.nondet)):
+            return None
+        fa, fb = a.frames[-1], b.frames[-1]
+        if fa.fn is not fb.fn or fa.blk != fb.blk or fa.ip != fb.ip:
             return None
         n = 0
         k = min(len(a.pc), len(b.pc))
         while n < k and a.pc[n] is b.pc[n]:
             n += 1
-        rb = b.pc[n:]
-        gb = z3.And(rb) if len(rb) != 1 else rb[0]
+        ra, rb = a.pc[n:], b.pc[n:]
+        if not ra or not rb:
+            return None
+        ida = {c.get_id() for c in ra}
+        idb = {c.get_id() for c in rb}
+        common = [c for c in ra if c.get_id() in idb]
+        xa = [c for c in ra if c.get_id() not in idb]
+        xb = [c for c in rb if c.get_id() not in ida]
+        if not xa or not xb:
+            return None
+        ga = z3.And(xa) if len(xa) != 1 else xa[0]
+        gb = z3.And(xb) if len(xb) != 1 else xb[0]
         try:
+            self.prune_dead(a)
+            self.prune_dead(b)
+            fa, fb = a.frames[-1], b.frames[-1]
+            env = {}
+            fn = fa.fn
+            for r in set(fa.env) | set(fb.env):
+                if r in fa.env and r in fb.env:
+                    va, vb = fa.env[r], fb.env[r]
+                    env[r] = va if va is vb else self.ite_typed(gb, vb, va, self.regtype(fn, r))
+                else:
+                    env[r] = fa.env.get(r, fb.env.get(r))
+            for i in range(len(a.frames) - 1):
+                xfa, xfb = a.frames[i], b.frames[i]
+                if xfa is xfb:
+                    continue
+                if xfa.fn is not xfb.fn or xfa.blk != xfb.blk or xfa.ip != xfb.ip:
+                    return None
+                for r in set(xfa.env) | set(xfb.env):
+                    if xfa.env.get(r) is not xfb.env.get(r):
+                        va, vb = xfa.env.get(r), xfb.env.get(r)
+                        if type(va) in (int, bool) and va == vb:
+                            continue
+                        return None
+            mem = {}
+            for key in set(a.mem) | set(b.mem):
+                if key in a.mem and key in b.mem:
+                    va, vb = a.mem[key], b.mem[key]
+                    mem[key] = va if va is vb else self.ite_typed(gb, vb, va, a.otype.get(key, b.otype.get(key)))
+                else:
+                    mem[key] = a.mem.get(key, b.mem.get(key))
             evs = []
             for x, y in zip(ea, eb):
                 if x is y or x.val is y.val:
@@ -748,14 +889,42 @@ class E3Engine(Engine):
                     evs.append(x.with_val(self.ite_typed(gb, y.val, x.val, x.vt)))
                 else:
                     evs.append(x.with_val(self.ite_val(gb, y.val, x.val, 64)))
-            ra, rb2 = a.notes.get("result"), b.notes.get("result")
-            if ra is not rb2:
-                m.notes["result"] = self.ite_val(gb, rb2, ra, None)
+            res = a.notes.get("result")
+            rb2 = b.notes.get("result")
+            if res is not rb2:
+                res = self.ite_val(gb, rb2, res, None)
         except EngineError:
             return None
-        m.notes["ev"] = tuple(evs)
-        m.notes["acc"] = (a.notes.get("acc") or frozenset()) | (b.notes.get("acc") or frozenset())
-        return m
+        s = a.fork()
+        s.mem = mem
+        top = fa.copy(s.id)
+        top.env = env
+        its = dict(fa.iters or {})
+        for k2, v2 in (fb.iters or {}).items():
+            its[k2] = max(its.get(k2, 0), v2)
+        top.iters = its or None
+        s.frames[-1] = top
+        disj = simp(z3.Or(ga, gb))
+        s.pc = a.pc[:n] + common + ([] if disj is True else [bl(disj)])
+        s.nobj = max(a.nobj, b.nobj)
+        ot = dict(b.otype)
+        ot.update(a.otype)
+        s.otype = ot
+        s.reached = list(dict.fromkeys(a.reached + b.reached))
+        s.steps = max(a.steps, b.steps)
+        s.notes["ev"] = tuple(evs)
+        if res is not None:
+            s.notes["result"] = res
+        s.notes["acc"] = (a.notes.get("acc") or frozenset()) | (b.notes.get("acc") or frozenset())
+        pa, pb = a.notes.get("accpos"), b.notes.get("accpos")
+        if pb and pa is not pb:
+            ap = dict(pb)
+            ap.update(pa or {})
+            s.notes["accpos"] = ap
+        ca, cb = a.notes.get("nfc", {}), b.notes.get("nfc", {})
+        if ca is not cb:
+            s.notes["nfc"] = {k3: max(ca.get(k3, 0), cb.get(k3, 0)) for k3 in set(ca) | set(cb)}
+        return s
 
 
 # ---------------------------------------------------------------------------------------------------------------
@@ -799,7 +968,9 @@ class Region:
         st.frames = []
         st.pc = list(parent.pc) + list(extra_pc)
         st.nondet = []
-        st.notes = {"tid": cid, "chans": snap.notes.get("chans", ())}
+        per_thread = ("ev", "acc", "accpos", "spawn", "nchild", "stuck", "result", "nfc", "tid", "marks")
+        st.notes = {k: v for k, v in snap.notes.items() if k not in per_thread}
+        st.notes["tid"] = cid
         st.nobj = snap.nobj + 1000000 * (1 + sum(ord(c) for c in cid))
         st.status = "run"
         fn = self.prog.funcs.get(callee.name)
@@ -844,21 +1015,23 @@ class Region:
         return trs
 
 
-def dedupe(traces, shared=None):
-    """merge traces whose event shapes, payloads, payload-relevant path condition and accesses to shared objects coincide
-    up to renaming of symbols; the representative keeps every alternative `result` (trace.results)"""
+def dedupe(traces, with_pc=True, with_pos=True):
+    """merge traces whose event shapes and payloads (and, with_pc, the payload-relevant part of the path condition) coincide
+    up to renaming of symbols. The representative gets the UNION of the access summaries (a superset of accesses is an
+    over-approximation for the race obligations) and keeps every alternative as (result, pc, label) in .alts"""
     seen = {}
     out = []
     for t in traces:
-        k = canon(t, shared)
+        k = canon(t, with_pc, with_pos)
         r = seen.get(k)
         if r is not None:
-            r.results.append((t.result, t.pc))
-            r.merged += 1
+            r.alts.append(t)
             r.acc = r.acc | t.acc
+            for kk, vv in t.accpos.items():
+                r.accpos.setdefault(kk, vv)
+            r.otype.update(t.otype)
             continue
-        t.results = [(t.result, t.pc)]
-        t.merged = 1
+        t.alts = [t]
         seen[k] = t
         out.append(t)
     return out
@@ -935,16 +1108,12 @@ def payload_terms(trace):
     return acc
 
 
-def canon(trace, shared=None):
+def canon(trace, with_pc=True, with_pos=True):
     roots = []
     for e in trace.events:
         _terms_of(e.val, roots)
     accs = []
-    for (_, _, _, path) in accs:
-        for p in path:
-            if type(p) is tuple:
-                roots.append(SYM_TERMS[p[1]])
-    pcs = relevant_pc(trace.pc, roots)
+    pcs = relevant_pc(trace.pc, roots) if with_pc else []
     order = []
     seen = set()
     for r in roots + pcs:
@@ -968,5 +1137,5 @@ def canon(trace, shared=None):
         a = []
         _terms_of(e.val, a)
         vals.append(tuple(s(x) for x in a) + (repr(e.val) if not a else "",))
-    return (trace.signature(), tuple(vals), tuple(sorted(s(c) for c in pcs)),
+    return (trace.signature(with_pos), tuple(vals), tuple(sorted(s(c) for c in pcs)),
             tuple(sorted((seg, k, o, tuple(p if type(p) is int else s(SYM_TERMS[p[1]]) for p in path)) for seg, k, o, path in accs)))
